@@ -210,6 +210,7 @@ def judge(ctx, spec, text, origin, ntags):
         ctx.count('load_function_creation_failed')
         return
     feat = H.main_feature(text)
+    H.prior_partial_use(ctx, m, text, 4)
     m.reset()
     ref = R.ref_load(m, text)
     ref_events = list(m.events)
@@ -400,6 +401,18 @@ def judge_decorated(ctx, spec, nspec, path, tree, dtree, style):
         return
     a = D.set_at(nspec, path, tree)
     b = D.set_at(nspec, path, dtree)
+    dashed = False
+    if path and path[-1][0] == 'v' and (len(repr(tree)) + len(path)) % 6 == 0:
+        # the key in front of the position written with dashes for
+        # underscores (in both documents): a spelling some classes accept
+        # and the others must treat as an unknown key, tags or no tags
+        kp = tuple(path[:-1]) + (('k', path[-1][1]),)
+        key = D.get_at(nspec, kp)
+        if key[0] == 's' and '_' in key[2]:
+            nk = ['s', key[1], key[2].replace('_', '-')]
+            a, b = D.set_at(a, kp, nk), D.set_at(b, kp, nk)
+            dashed = True
+            ctx.count('decorated_pairs_with_dashed_key')
     try:
         ta, tb = D.render(a, style), D.render(b, style)
     except (ValueError, RecursionError):
@@ -409,10 +422,23 @@ def judge_decorated(ctx, spec, nspec, path, tree, dtree, style):
             'style': style}
     m.reset()
     ka, xa = H.run_load(load, ta)
+    inits_a = sorted(ev[3] for ev in m.events if ev[2] == 'init')
     m.reset()
     feat = H.main_feature(tb)
+    if dashed:
+        feat = 'dashed-key-before-any-position'
     kb, xb = monitored_load(ctx, load, tb, case, feat)
-    inits = [ev for ev in m.events if ev[2] == 'init']
+    inits = sorted(ev[3] for ev in m.events if ev[2] == 'init')
+    if inits != inits_a:
+        import collections
+        diff = collections.Counter(inits)
+        diff.subtract(collections.Counter(inits_a))
+        ctx.violation(
+            'C04 tags-below-any-not-ignored other-constructors-ran '
+            'feature=%s' % feat,
+            'undecorated %r ran the constructors %s, decorated %r ran %s '
+            '(difference %s)' % (ta[:200], inits_a, tb[:200], inits,
+                                 {k: v for k, v in diff.items() if v}), case)
     ctx.count('decorated_pairs_compared')
     ctx.count('loads')
     ctx.count('tag_injected_loads')
